@@ -1549,10 +1549,38 @@ func checkApply(res *kit.Result, tag, q string, def *mStyle, want *resolved, m m
 		if got == nil {
 			got = map[string]interface{}{} // an absent block shows nothing
 		}
-		if !reflect.DeepEqual(got, blk.exp) {
+		// The property demands agreement on the elements the view exposes, not a particular set of keys: every key the
+		// view is known to expose must be there with the resolved value; a further key is accepted when it names an
+		// element that the resolved style (by the reference) really has - a view that reports MORE of the resolved style
+		// still satisfies the property - and is a failure when it names an element the resolved style lacks. Keys the
+		// model does not know are not judged. (Found by the benign-change round: C14-B3.)
+		bad := false
+		for k, v := range blk.exp {
+			if gv, ok := got[k]; !ok || !reflect.DeepEqual(gv, v) {
+				bad = true
+			}
+		}
+		for k := range got {
+			if _, ok := blk.exp[k]; ok {
+				continue
+			}
+			if el, known := applyExtraKeys[k]; known && want.Src[el] == nil {
+				bad = true
+			}
+		}
+		if bad {
 			res.Fail("C14.V2.apply", "%s chain %q: ApplyStyleToXML %s = %s, reference %s", tag, want.Chain, blk.name, Render(got), Render(blk.exp))
 		}
 	}
+}
+
+// applyExtraKeys maps keys a wider ApplyStyleToXML view may report to the model's element names.
+var applyExtraKeys = map[string]string{
+	"keepNext": "keepNext", "keepLines": "keepLines", "pageBreakBefore": "pageBreak", "snapToGrid": "snapToGrid",
+	"shading": "shading", "borders": "borders", "spacing": "spacing", "justification": "alignment",
+	"indentation": "indentation", "outlineLevel": "outlineLevel", "bold": "bold", "italic": "italic",
+	"strike": "strike", "underline": "underline", "fontSize": "size", "color": "colour", "fontFamily": "font",
+	"highlight": "highlight",
 }
 
 func checkClone(res *kit.Result, sm *style.StyleManager, before map[string]string, queries []string, reg registry) {
